@@ -497,6 +497,12 @@ def oracle(case, res):
             fails.append(("C14/int-metric/bca-raises",
                           f"integer-valued metric with bootstrap_method='bca': bootstrap_ci raises {r['ci_err']} ({r['ci_msg']}) "
                           "instead of returning the interval of the replicates"))
+        elif (case["bootstrap_method"] in ("bc", "bca") and r["ci_err"] == "ValueError" and "Quantiles" in r.get("ci_msg", "")
+              and any(all(r["rows"][j * size + c] is None for j in range(n)) for c in range(size))):
+            fails.append(("C14/all-nan-component/raises",
+                          f"a metric component is NaN in every bootstrap sample (e.g. a group without positives in the sample) and "
+                          f"bootstrap_ci with method {case['bootstrap_method']} raises {r['ci_err']} ({r['ci_msg']}) for the whole metric "
+                          "instead of NaN limits for that component (C13 known finding reached through Scores.bootstrap_ci)"))
         else:
             fails.append(("C14/exception", f"bootstrap_ci raised {r['ci_err']}: {r['ci_msg']}"))
         return fails
